@@ -44,6 +44,7 @@ def cases(ctx):
                 yield 'toks', {'len': L, 'start': start, 'count': 2000}
             b += 1
     n = 3000 if q else 50000
+    ctx.new_phase()
     for i in range(n):
         if not ctx.time_left():
             break
